@@ -34,10 +34,11 @@ THEOREMS_DOC = {
     'C05_at_most_one_command': 'the table never prescribes more than one command',
     'C05_no_spurious_output_rejected': 'undecodable or invalid line: logic returns the same state and no reply (nothing sent, queued or withheld)',
     'C05_no_spurious_output_silent': 'accepted message for which the table prescribes nothing: no reply, no send, no job, every hold queue unchanged',
-    'C05_invariant_reachable': 'Inv5 (stored values validated+carriable, node ids 0..255, every withheld/queued/logged command string is the encoding of a carriable validating message, firmware data are bytes) together with Inv holds after every history of op_wire operations from gw_init',
+    'C05_invariant_reachable': 'Inv5 (stored values validated+carriable, node ids 0..255, every withheld/queued/logged command string is the encoding of a carriable validating message, firmware data are bytes) together with Inv holds after every history of op_wire operations (set_child_value with a carriable value and ANY node/child id, update_fw with an image as in C01) from gw_init',
     'C05_logic_keeps_invariant': 'one dispatcher call (ALL handlers incl. the wake-up flush) keeps Inv5 and its reply string encodes a carriable validating message',
-    'C05_emitted_canonical_valid_partial': 'all histories (any inbound text, both flavours, controller values carriable, set_child_value node id in 0..255 on >=2.0 gateways): every ESend string, every queued send job, every withheld string is canonical, decodes to the message it encodes, which validates for the configured version and has node id in 0..255; a withheld string decodes to a message for the node in whose queue it waits',
-    'C05_emitted_canonical_valid_refuted': "FINDING: without the node-id side condition the statement is false: set_child_value(300,0,2,'1') on a 2.2 gateway sends '300;255;3;0;19;' which does not validate", 'C05_replies_validate': 'per version that sends them: presentation request, discover request, reboot order, config reply (M/I), time reply (any clock), id response (any child id, id in 1..254) validate and are carriable',
+    'C05_op_wire_reading': 'op_wire o iff: set_child_value is given a carriable value, update_fw an image as in C01, anything else unrestricted - no condition on node ids',
+    'C05_emitted_canonical_valid': 'all histories (any inbound text, both flavours, controller values carriable, set_child_value with ANY node/child id): every ESend string, every queued send job, every withheld string is canonical, decodes to the message it encodes, which validates for the configured version and has node id in 0..255; a withheld string decodes to a message for the node in whose queue it waits (full statement since the library fix of finding D20: is_sensor only asks a node id in range(BROADCAST_ID + 1) to present itself)',
+    'C05_replies_validate': 'per version that sends them: presentation request, discover request, reboot order, config reply (M/I), time reply (any clock), id response (any child id, id in 1..254) validate and are carriable',
     'C05_validate_ack_independent': 'validation depends on ack only through ack in {0,1}',
     'C05_prescribed_addressing': 'every prescribed command is addressed to the sender of the inbound message, except the discover request',
     'C05_presentation_request_addressing': 'a presentation request is prescribed only on >=2.0, to the sender, and only if the sender or the child concerned is unknown',
@@ -121,6 +122,8 @@ def spec_check(ctx, items):
     return bad, len(flat)
 
 
+# regression corpus of finding D20 (fixed in the library: is_sensor only requests a presentation from a node id in
+# range(BROADCAST_ID + 1)): set_child_value with node ids outside 0..255 on >= 2.0 gateways must emit nothing
 D20_CORPUS = [
     {"id": "c05-d20-sync", "cfg": {"ver": "2.2", "flavour": "sync", "callback": True, "cb_raises": False, "mqtt": False, "carriable": True},
      "ops": [("recv", "1;255;0;0;17;2.2"), ("pump",), ("setchild", 300, 0, 2, "1", None, None), ("pump",), ("pump",)]},
@@ -145,8 +148,9 @@ def run(ctx, res):
             except ValueError:
                 node = 0
             if (t, sub) == (3, 19) and not 0 <= node <= 255:
-                # finding D20: set_child_value(<sensor id outside 0..255>) on a >= 2.0 gateway requests a
-                # presentation from that id (C05_emitted_canonical_valid_refuted holds the Coq witness)
+                # a presentation request to an id outside 0..255 (what set_child_value(<such an id>) caused on a
+                # >= 2.0 gateway before the library fix of finding D20; C05_emitted_canonical_valid excludes it,
+                # C05_ex_set_child_out_of_range_silent is the former witness): named so that a regression is recognisable
                 key = "emitted-invalid/presentation-request-node-out-of-range"
             res.violate(key,
                         f"[{c['id']}] gateway version {c['cfg']['ver']} emitted {s!r}, which the serial API spec rejects ({v})",
